@@ -82,6 +82,10 @@ class FFTWrapper:
     def call(self, x):
         if x.shape != self._inshape:
             raise ValueError(f"Expected input of shape {self._inshape}, got {x.shape}")
+        # the C routines read the input as one C-contiguous buffer of the plan's input type
+        x = np.ascontiguousarray(
+            x, dtype=np.float64 if (self._r2c and self._fwd) else np.complex128
+        )
         dtype = np.float64 if (self._r2c and not self._fwd) else np.complex128
         out = np.empty(self._outshape, dtype=dtype)
         libfft.write_fft_input(self._ptr, x.ctypes.data_as(ctypes.c_void_p))
